@@ -79,10 +79,25 @@ def _base_bundles():
     return out
 
 
+def _equiv_bundles():
+    ''' The base bundles plus bundles with present-day creation times (eight-octet integers whose leading octets are zero). '''
+    out = _base_bundles()
+    now_ms = (1767225600 - 946684800) * 1000
+    for (crc, dest) in ((1, 'dtn://me/svc'), (2, 'dtn://other/svc')):
+        pri = dict(version=7, flags=bpv7.FLAG_REQ_RECEPTION | bpv7.FLAG_REQ_DELIVERY | bpv7.FLAG_REQ_FORWARDING, crc_type=crc, dest=dest,
+                   src='dtn://src/a', report_to='dtn://rep/x', create_time=now_ms - 4000, seqno=70000 + crc, lifetime=3600000,
+                   frag_offset=None, total_adu_len=None, crc=None)
+        out.append(dict(primary=pri, blocks=[dict(type=7, num=2, flags=0, crc_type=crc, data=bytes.fromhex('1a00010000'), crc=None),
+                                             dict(type=1, num=1, flags=0, crc_type=crc, data=bytes(range(20)), crc=None)]))
+    return out
+
+
 def cases(tier, seed):
     out = []
     bases = _base_bundles()
     thorough = tier == 'thorough'
+    for idx, _bundle in enumerate(_equiv_bundles()):
+        out.append(dict(id='equiv-%d' % idx, kind='equiv', base=idx))
     for idx, _bundle in enumerate(bases):
         out.append(dict(id='flips-%d' % idx, kind='flips', base=idx))
         out.append(dict(id='bursts-%d' % idx, kind='bursts', base=idx, seed=seed * 977 + idx, count=4500 if thorough else 300))
@@ -273,8 +288,8 @@ def run_case(case):
     violations = []
     sample = None
     kind = case['kind']
-    if kind in ('flips', 'bursts', 'bytesub'):
-        base = _base_bundles()[case['base']]
+    if kind in ('flips', 'bursts', 'bytesub', 'equiv'):
+        base = (_equiv_bundles() if kind == 'equiv' else _base_bundles())[case['base']]
         enc = bpv7.encode(base)
         # the unmutated bundle must be accepted, otherwise the experiment is meaningless
         sim, node = _fresh_node()
@@ -283,7 +298,21 @@ def run_case(case):
         if not node.seen():
             return dict(verdict='inconclusive', nontrivial=False, cls='x', obs=obs, violations=[],
                         inconclusive_reason='base bundle %d not accepted by the agent' % case['base'])
-        if kind == 'flips':
+        if kind == 'equiv':
+            # same-length substitutions that a lenient CBOR reader maps back to the original value: an unsigned integer whose
+            # most significant octet is zero turned into a bignum tag + byte string (1a 00 -> c2 43, 1b 00 -> c2 47,
+            # 19 00 -> c2 41): 16-bit bursts, within the guaranteed detection of both CRC widths
+            mutants = []
+            for (lo, hi, _crc_type) in _protected_spans(enc):
+                for pos in range(lo, hi - 1):
+                    for (old, new) in ((b'\x1a\x00', b'\xc2\x43'), (b'\x1b\x00', b'\xc2\x47'), (b'\x19\x00', b'\xc2\x41'),
+                                       (b'\x1a\x00', b'\xc3\x43'), (b'\x1b\x00', b'\xc3\x47')):
+                        if enc[pos:pos + 2] == old:
+                            mutants.append(enc[:pos] + new + enc[pos + 2:])
+            obs['in_equivalent_reencodings'] = len(mutants)
+            if not mutants:
+                return dict(verdict='held', nontrivial=False, cls=set(), obs=obs, violations=[], sample=None, evaluations=0)
+        elif kind == 'flips':
             mutants = []
             for pos in range(len(enc)):
                 for bit in range(8):
